@@ -407,4 +407,68 @@ def rule_e(ctx):
     return r
 
 
-RULES = [rule_ab, rule_c, rule_d, rule_e]
+
+# Scope maps (BTreeMap<Identifier, Value | Mixin | SassFunction> behind Arc<RefCell<..>>) are shared with every closure created
+# while the scope was live (Scopes::new_closure clones the Arcs).  Destructive operations on maps of these types are an exact,
+# reviewed inventory; anything else changes what a function/mixin/@content block defined in that scope sees after the scope exits.
+SCOPE_MAP_DESTRUCTIVE_REVIEWED = {
+    ("grass_compiler::evaluate::env::Environment::import_forwards", "remove"): "members of the *current* module scope shadowed by a forwarded module are dropped while that scope is still being built",
+    ("<grass_compiler::utils::map_view::BaseMapView<T> as grass_compiler::utils::map_view::MapView>::remove", "remove"): "the MapView primitive; its callers are the forward/configuration bookkeeping checked by C12-a",
+    ("grass_compiler::ast::args::ArgumentResult::get_named", "remove"): "named-argument map of one call, not a scope",
+    ("grass_compiler::evaluate::visitor::Visitor::run_user_defined_callable", "remove"): "named-argument map of one call, not a scope",
+}
+DESTRUCTIVE = ("clear", "remove", "remove_entry", "retain", "pop_first", "pop_last", "split_off", "drain", "extract_if", "append")
+
+
+def rule_f(ctx):
+    r = RuleResult("C03-f", "closures keep seeing the scope they were defined in: scope maps are only ever inserted into — no clear/remove/retain/... on a "
+                   "BTreeMap<Identifier, Value|Mixin|SassFunction> outside the reviewed inventory, and new_closure shares (does not copy) the maps")
+    prog = ctx.prog()
+    n = 0
+    for b in prog.bodies.values():
+        if b.crate != "grass_compiler":
+            continue
+        for c in b.calls():
+            t2 = an.tail2(c.callee) or ""
+            if not t2.startswith("BTreeMap::") or t2.split("::", 1)[1] not in DESTRUCTIVE or len(c.fn_args) < 2:
+                continue
+            if "common::Identifier" not in c.fn_args[0]:
+                continue
+            elem = c.fn_args[1]
+            if not (elem.endswith("value::Value") or elem.endswith("::Mixin") or elem.endswith("::SassFunction") or elem == "T"):
+                continue
+            n += 1
+            op = t2.split("::", 1)[1]
+            key = "%s|BTreeMap::%s" % (b.root, op)
+            why = SCOPE_MAP_DESTRUCTIVE_REVIEWED.get((b.root, op))
+            if why:
+                r.ok(key, reviewed=why)
+            else:
+                r.violate(key, "%s applies BTreeMap::%s to a map of %s keyed by Identifier — the type of a scope map, which closures share by Arc: a function, mixin or "
+                          "@content block defined in that scope then sees it emptied/changed after the scope exits" % (b.path, op, elem.rsplit("::", 1)[-1]), c.loc())
+    r.floor("destructive operations on Identifier-keyed value/mixin/function maps", n, 5)
+    # new_closure shares the maps: it must clone the Arcs of variables/mixins/functions, not the maps
+    nc = prog.one("evaluate::scope::Scopes::new_closure")
+    shares = set()
+    for c in nc.calls():
+        if an.tail2(c.callee) == "Iterator::map" and len(c.args) == 2 and c.fn_args and "Iter<'_, std::sync::Arc<std::cell::RefCell<std::collections::btree::map::BTreeMap<" in c.fn_args[0]:
+            f = an.trace_operand(nc, c.args[1])
+            src = an.trace_operand(nc, c.args[0])
+            if f.root[0] == "fn" and f.root[1].endswith("Clone::clone"):
+                cur, g = src, 0
+                while cur.root[0] == "call" and g < 8:
+                    cc = nc.call_at(cur.root[2])
+                    cur = an.trace_operand(nc, cc.args[0]) if cc and cc.args else cur
+                    g += 1
+                if cur.root == ("arg", 1) and cur.proj:
+                    shares.add(cur.proj[-1])
+    shares = sorted(shares)
+    if {"variables", "mixins", "functions"} <= set(shares):
+        r.ok("Scopes::new_closure|shares-maps", fields=shares)
+    else:
+        r.violate("Scopes::new_closure|shares-maps", "Scopes::new_closure no longer clones the Arcs of variables, mixins and functions (found %s): closures would not observe "
+                  "later assignments to variables of their defining scope" % shares, nc.loc())
+    return r
+
+
+RULES = [rule_ab, rule_c, rule_d, rule_e, rule_f]
